@@ -73,6 +73,18 @@ def _extra():
         add("logical-ops", "unsigned char a, b, r;", "r = 0; if (a || b) r = 1;", {"init": {"a": a, "b": 0}, "expect": {"r": int(a != 0)}}, "a=%d" % a)
         add("logical-ops", "unsigned char a, r;", "r = 0; if (!a) r = 1;", {"init": {"a": a}, "expect": {"r": int(a == 0)}}, "a=%d" % a)
         add("ternary", "unsigned char a, r;", "r = (a > 1) ? 7 : 8;", {"init": {"a": a}, "expect": {"r": 7 if a > 1 else 8}}, "a=%d" % a)
+    # widening of signed / unsigned 8-bit values to 16 bits, scalar, constant index, register index
+    for v in (1, 0x7f, 0x80, 0xfe):
+        sv = v - 256 if v >= 128 else v
+        add("widen-signed", "signed char c; short s;", "s = c;", {"init": {"c": v}, "expect16": {"s": sv & 0xffff}}, "c=%d" % sv)
+        add("widen-signed", "signed char tab[4]; short s;", "s = tab[1];", {"init_addr": {"tab+1": v}, "expect16": {"s": sv & 0xffff}}, "tab[1]=%d" % sv)
+        add("widen-signed", "signed char tab[4]; short s;", "X = 1; s = tab[X];", {"init_addr": {"tab+1": v}, "expect16": {"s": sv & 0xffff}}, "tab[X]=%d" % sv)
+        add("widen-signed", "signed char tab[4]; short s;", "Y = 2; s = tab[Y];", {"init_addr": {"tab+2": v}, "expect16": {"s": sv & 0xffff}}, "tab[Y]=%d" % sv)
+        add("widen-signed", "signed char tab[4]; short s, t;", "s = t + tab[3];", {"init_addr": {"tab+3": v}, "init16": {"t": 1000}, "expect16": {"s": (1000 + sv) & 0xffff}}, "tab[3]=%d" % sv)
+        add("widen-unsigned", "unsigned char c; short s;", "s = c;", {"init": {"c": v}, "expect16": {"s": v}}, "c=%d" % v)
+        add("widen-unsigned", "unsigned char tab[4]; short s;", "s = tab[1];", {"init_addr": {"tab+1": v}, "expect16": {"s": v}}, "tab[1]=%d" % v)
+        add("widen-unsigned", "unsigned char tab[4]; short s;", "X = 1; s = tab[X];", {"init_addr": {"tab+1": v}, "expect16": {"s": v}}, "tab[X]=%d" % v)
+        add("widen-unsigned", "unsigned char tab[4]; short s, t;", "s = t + tab[3];", {"init_addr": {"tab+3": v}, "init16": {"t": 1000}, "expect16": {"s": (1000 + v) & 0xffff}}, "tab[3]=%d" % v)
     # shifts
     for v in (1, 0x81, 0x55, 0xff):
         for k in (1, 2, 7):
